@@ -76,7 +76,8 @@ def run(ctx):
     mcs = []
     if MC_ENABLED:
         # safety (time passes freely) and progress (urgent time, bounded liveness) configurations
-        cfgs = ["Conveyor_mc_2s.cfg", "Conveyor_progress_big.cfg"] if th else ["Conveyor_mc.cfg", "Conveyor_progress.cfg"]
+        cfgs = (["Conveyor_mc_big.cfg", "Conveyor_progress_big.cfg", "Conveyor_mc.cfg", "Conveyor_progress.cfg"] if th
+                else ["Conveyor_mc.cfg", "Conveyor_progress.cfg"])
         mcx = concurrent.futures.ThreadPoolExecutor(max_workers=2)
         mcs = [mcx.submit(ctx.tlc, "ConveyorMC", c, workers=6, timeout=3400 if th else 900, coverage=False) for c in cfgs]
     scen = [("scripted", 0, 30), ("agent-restart", 0, 46)]
